@@ -167,6 +167,19 @@ def check_id(i: int) -> list[Violation]:
     return out
 
 
+def idless_names() -> list[str]:
+    return sorted(n for n, m in text()["messages"].items() if not m["id"])
+
+
+def _send_idless(conn, name: str) -> None:
+    from aioesphomeapi import api_pb2
+
+    try:
+        conn.send_message(getattr(api_pb2, name)())
+    except Exception:  # noqa: BLE001  refusing is the documented-by-behaviour outcome; the wire and the tables are judged
+        pass
+
+
 # ------------------------------------------------------------------ route
 def run_route(case: dict) -> CaseResult:
     from aioesphomeapi import api_pb2
@@ -205,11 +218,19 @@ def run_route(case: dict) -> CaseResult:
         env.log("send_phase")
         # reverse direction
         if conn.connection_state.name == "CONNECTED":
-            for i, spec in case.get("send", []):
+            idless = case.get("send_idless", [])
+            for k, (i, spec) in enumerate(case.get("send", [])):
+                # a message api.proto declares WITHOUT an id has no wire type: whatever the call does, no frame
+                # may appear for it and the tables must stay exactly the declared ids
+                for nm in idless[k::max(1, len(case["send"]))] if k < len(idless) else []:
+                    _send_idless(conn, nm)
                 name = tids[i]
                 msg = pbgen.build(getattr(api_pb2, name), spec)
                 sent_expect.append((i, msg.SerializeToString()))
                 conn.send_message(msg)
+            if not case.get("send"):
+                for nm in idless:
+                    _send_idless(conn, nm)
         env.log("route_done")
         if conn.connection_state.name != "CLOSED":
             env.spawn("final", sess.cli.disconnect(force=True))
@@ -233,8 +254,12 @@ def run_route(case: dict) -> CaseResult:
     wrote = [(e["type"], e["payload"]) for e in env.trace if e["kind"] == "rx" and c0 < e["seq"] < c1]
     if wrote != sent_expect:
         res.violations.append(V("c13:route:sent-under-wrong-id", f"device decoded {[t for t, _ in wrote]}, expected {[t for t, _ in sent_expect]}"))
+    if case.get("send_idless"):
+        res.violations += check_tables()
+        for i in sorted(tids):
+            res.violations += check_id(i)
     res.nontrivial = bool(expect) and bool(sent_expect)
-    res.classes = ["route"] + (["noise"] if case.get("noise") else [])
+    res.classes = ["route"] + (["noise"] if case.get("noise") else []) + (["send_idless"] if case.get("send_idless") else [])
     res.info = {"frames": len(expect), "sent": len(sent_expect)}
     s.close()
     return res
@@ -405,7 +430,10 @@ def _route(draw, tier):
     for _ in range(draw(st.integers(0, 6))):
         i = draw(st.sampled_from(client_side))
         send.append([i, draw(pbgen.message_strategy(getattr(api_pb2, tids[i])))])
-    return {"kind": "route", "noise": draw(st.booleans()), "frames": frames, "send": send}
+    out = {"kind": "route", "noise": draw(st.booleans()), "frames": frames, "send": send}
+    if draw(st.integers(0, 3)) == 1:
+        out["send_idless"] = draw(st.lists(st.sampled_from(idless_names()), min_size=1, max_size=3))
+    return out
 
 
 @st.composite
@@ -436,6 +464,9 @@ def enumerated(tier):
     for lo in range(0, len(ids_), 16):
         yield {"kind": "route", "noise": (lo // 16) % 2 == 1, "frames": [[i, {}] for i in ids_[lo:lo + 16]], "send": [[i, {}] for i in cs[lo // 2: lo // 2 + 8]]}
     yield {"kind": "route", "noise": False, "frames": [[7, {}], [5, {}]], "send": []}
+    for n in idless_names():
+        yield {"kind": "route", "noise": False, "frames": [[8, {}]], "send": [[7, {}], [8, {}]], "send_idless": [n, n]}
+    yield {"kind": "route", "noise": True, "frames": [[8, {}]], "send": [], "send_idless": idless_names()}
     mx = max(tids)
     for u in (0, mx + 1, 65535, 256 + 25, 256 + 26, 512 + 7, 256 * 4 + 36, 256 + 5):
         for known in (25, 26, mx):
